@@ -135,6 +135,8 @@ fn main() {
     let fs = Arc::new(ScriptedFs::new("s"));
     let server = Server::new(fs.clone());
     // 1. request classes of WireFrame
+    let pre: Vec<_> = [0u64, 1, 2, 3].iter().map(|m| wire::negotiated_server(&abi, *m)).collect();
+    let post: Vec<_> = [4u64, 5, 33].iter().map(|m| wire::negotiated_server(&abi, *m)).collect();
     for (i, line) in cases.lines().enumerate() {
         if line.trim().is_empty() || (i + seed as usize) % stride != 0 {
             continue;
@@ -142,7 +144,14 @@ fn main() {
         let case: Value = serde_json::from_str(line).unwrap();
         let c = &case["c"];
         if let Some(cr) = wire::concretise(&abi, &mut rng, c) {
-            pair(&mut tr, &server, &fs, &mut rng, "class", c["op"].as_str().unwrap(), c["tr"].as_str().unwrap(), &cr.bytes, cr.cap, &cr.script,
+            // LOOKUP reads the negotiated version: it runs on servers that only ever saw one INIT
+            let (fsx, srv) = if c["op"] == "LOOKUP" {
+                let p = if c["sess"] == "pre74" { &pre[rng.below(4) as usize] } else { &post[rng.below(3) as usize] };
+                (&p.0, &p.1)
+            } else {
+                (&fs, &server)
+            };
+            pair(&mut tr, srv, fsx, &mut rng, "class", c["op"].as_str().unwrap(), c["tr"].as_str().unwrap(), &cr.bytes, cr.cap, &cr.script,
                  c["vu"].as_bool().unwrap(), c.clone());
         }
     }
